@@ -14,8 +14,9 @@ Definition obs_tree := list (nat * str * attrs).   (* pre-order: (depth from 0, 
 Inductive tcase :=
 | CNewick (c : nwcfg) (isroot : bool) (t : tree) (out : option str) (back : option obs_tree)
 | CNwParse (la pf s : str) (back : option obs_tree)
-| CPrint (st : style_arg) (t : tree) (out : option str) (back : option obs_tree)
-| CStParse (s : str) (back : option obs_tree).
+| CPrint (st : style_arg) (md : nat) (pl : list str) (t : tree) (out : option str) (back : option obs_tree)
+      (* md = max_depth (0 = none); pl = tree_prefix_list given to str_to_tree *)
+| CStParse (pl : list str) (s : str) (back : option obs_tree).
 
 Fixpoint flat (d : nat) (t : tree) : obs_tree :=
   match t with T _ n a ks => (d, n, a) :: flat_map (flat (S d)) ks end.
@@ -83,15 +84,23 @@ Definition check_C06_text (c : tcase) : nat :=
   | CNwParse la pf s back =>
       let m := nw_parse la pf s in
       if unmodelled m then F_SKIP else flag (negb (agree_tree m back)) F_DISAGREE
-  | CPrint sa t out back =>
+  | CPrint sa md pl t0 out back =>
       let st := style_of sa in
-      let inside := print_alphabet st t in
+      let t := prune_depth md t0 in
+      (* the round trip is claimed without prefix list, or with the style's own branch / final-stem
+         glyphs (blank stripped) as prefix list *)
+      let pl_ok := match pl with
+                   | [] => true
+                   | _ => let '(_, branch, final) := st in
+                          list_eqb str_eqb pl [rstrip branch [32%N]; rstrip final [32%N]]
+                   end in
+      let inside := print_alphabet st t && pl_ok in
       let m_out := print_str st t in
       match out with
       | None =>
           flag (negb (agree_str m_out out)) F_DISAGREE + (if inside then F_PROPFAIL else F_SKIP)
       | Some s =>
-          let m_back := str_to_tree_m s in
+          let m_back := str_to_tree_p pl s in
           let dis := negb (agree_str m_out out)
                      || (negb (unmodelled m_back) && negb (agree_tree m_back back)) in
           let export_ok := prop_print_export st t s in       (* claimed for every style and name *)
@@ -106,7 +115,7 @@ Definition check_C06_text (c : tcase) : nat :=
           + flag (negb export_ok || (inside && negb back_ok)) F_PROPFAIL
           + flag (negb inside) F_SKIP
       end
-  | CStParse s back =>
-      let m := str_to_tree_m s in
+  | CStParse pl s back =>
+      let m := str_to_tree_p pl s in
       if unmodelled m then F_SKIP else flag (negb (agree_tree m back)) F_DISAGREE
   end.
